@@ -37,7 +37,7 @@ def run_case(case, ctx=None):
         if ctx:
             ctx.count("skipped_too_large")
         return
-    fam = pvcase.known_family(case, m)
+    fam = pvcase.known_family(case, m, "C05")
     if fam and not case.get("force"):
         if ctx:
             ctx.exclude(fam)
@@ -103,7 +103,7 @@ def run_shard(ctx):
         except Violation as v:
             ctx.violation(case, str(v))
             return
-    n = 40 if ctx.tier == "quick" else 1600
+    n = 150 if ctx.tier == "quick" else 4000
     strat = st.one_of(
         pvcase.cases(),
         pvcase.cases(multi_start=True),
